@@ -28,7 +28,8 @@ RULE = ("seeded data sets; distinct = canonical case JSON; non-trivial = >=2 qua
 REQUIRED_BUCKETS = ["none-result", "non-working-excluded", "metric-missing", "soc-outside-limits", "equal-limits",
                     "zero-capacity", "zero-total-weight", "soc-on-limit", "monotonicity-checked",
                     "scale-invariance-checked", "integration:cache-dropped-on-stop-working",
-                    "integration:nan-metric-dropped", "integration:silent-battery-timed-out"]
+                    "integration:nan-metric-dropped", "integration:silent-battery-timed-out",
+                    "integration:soc-first-accessed-after-status-known"]
 REQUIRED_COUNTERS = ["soc_values_compared", "capacity_values_compared", "integration_checkpoints"]
 ASSUMPTIONS = ["metric data objects built directly (ComponentMetricsData); timestamps irrelevant"]
 
@@ -231,7 +232,10 @@ def gen_integration(rng: Any) -> dict[str, Any]:
         if rng.random() < 0.3:
             d[rng.choice(["cap", "lo", "hi", "soc"])] = None  # NaN in the very last message of this battery
         ev.append([round(t + 0.01 * b, 3), "data", b, d])
-    return {"nb": nb, "events": ev, "checkpoint": round(t + 1.0, 3)}
+    # pool.soc is first accessed either before anything happened or after some status/data events (the aggregator is
+    # created lazily with the working set known at that moment)
+    return {"nb": nb, "events": ev, "checkpoint": round(t + 1.0, 3),
+            "access_after_event": rng.choice([0, 0, rng.randint(1, max(1, len(ev) // 2))])}
 
 
 async def _drive_integration(case: dict[str, Any], out: dict[str, Any]) -> None:
@@ -250,15 +254,37 @@ async def _drive_integration(case: dict[str, Any], out: dict[str, Any]) -> None:
     comps, conns = fakes.battery_topology(groups)
     api = fakes.install_connection_manager(comps, conns)
     ids = {10 + b for b in range(1, nb + 1)}
-    agg = SendOnUpdate(set(ids), SoCCalculator(set(ids)), timedelta(seconds=0.2))
-    rx = agg.new_receiver(limit=1000)
+    # the real BatteryPool.soc path: reference store (working set from the status channel) -> SendOnUpdate
+    from unittest.mock import MagicMock
+
+    from frequenz.channels import Broadcast
+
+    from frequenz.sdk._internal._channels import ChannelRegistry
+    from frequenz.sdk.microgrid._power_distributing._component_status import ComponentPoolStatus
+    from frequenz.sdk.timeseries.battery_pool import BatteryPool
+    from frequenz.sdk.timeseries.battery_pool._battery_pool_reference_store import \
+        BatteryPoolReferenceStore
+
+    status_ch = Broadcast(name="battery-status", resend_latest=True)
+    status_tx = status_ch.new_sender()
+    store = BatteryPoolReferenceStore(
+        channel_registry=ChannelRegistry(name="vf"), resampler_subscription_sender=Broadcast(name="rs").new_sender(),
+        batteries_status_receiver=status_ch.new_receiver(limit=1), power_manager_requests_sender=Broadcast(name="pm").new_sender(),
+        power_manager_bounds_subscription_sender=Broadcast(name="pb").new_sender(),
+        power_distribution_results_fetcher=MagicMock(), min_update_interval=timedelta(seconds=0.2), batteries_id=set(ids))
+    pool = BatteryPool(pool_ref_store=store, name="vf", priority=0, set_operating_point=False)
+    agg = None
+    rx = None
     t0 = loop.time()
-    for e in case["events"]:
+    for n_ev, e in enumerate(case["events"]):
+        if agg is None and n_ev >= case.get("access_after_event", 0):
+            agg = pool.soc  # first access creates the aggregator
+            rx = agg.new_receiver(limit=1000)
         dt = t0 + e[0] - loop.time()
         if dt > 0:
             await asyncio.sleep(dt)
         if e[1] == "working":
-            agg.update_working_batteries({10 + b for b in e[2]})
+            await status_tx.send(ComponentPoolStatus(working={10 + b for b in e[2]}, uncertain=set()))
         else:
             b, d = e[2], e[3]
             full = {"cap": d["cap"] if d["cap"] is not None else _m.nan, "soc": d["soc"] if d["soc"] is not None else _m.nan,
@@ -276,7 +302,7 @@ async def _drive_integration(case: dict[str, Any], out: dict[str, Any]) -> None:
     out["n_results"] = n
     out["last"] = None if last is None or last.value is None else last.value.as_percent()
     out["last_is_none_sample"] = last is not None and last.value is None
-    await agg.stop()
+    await store.stop()
 
 
 def check_integration(case: dict[str, Any], rec: Any) -> None:
@@ -286,10 +312,17 @@ def check_integration(case: dict[str, Any], rec: Any) -> None:
     run_virtual(lambda: _drive_integration(case, out))
     # reference cache model
     cache: dict[int, dict[str, Any]] = {}
+    latest: dict[int, dict[str, Any]] = {}
     last_data: dict[int, float] = {}
-    working: set[int] = set()
+    working: set[int] = set()  # nothing is working until the first status message
     MAXAGE = 2.0
-    for e in case["events"]:
+    accessed = False
+    for n_ev, e in enumerate(case["events"]):
+        if not accessed and n_ev >= case.get("access_after_event", 0):
+            accessed = True
+            cache = dict(latest)  # the fake API re-sends the latest message to a new subscriber
+            if n_ev > 0:
+                rec.bucket("integration:soc-first-accessed-after-status-known")
         t = e[0]
         if e[1] == "working":
             new = set(e[2])
@@ -304,7 +337,9 @@ def check_integration(case: dict[str, Any], rec: Any) -> None:
             last_data[b] = t
             if any(v is None for v in d.values()):
                 rec.bucket("integration:nan-metric-dropped")
-            cache[b] = {k: v for k, v in d.items() if v is not None}
+            latest[b] = {k: v for k, v in d.items() if v is not None}
+            if accessed:
+                cache[b] = latest[b]
     cp = case["checkpoint"]
     bats = {str(b): (d if cp - last_data.get(b, -1e9) <= MAXAGE + 1e-6 else {}) for b, d in cache.items()}
     n, used, tot = _ref_soc(bats, sorted(working))
